@@ -201,8 +201,10 @@ def layer_a_cases(tier):
     dims = [('perm', list(range(len(perms)))),
             ('unknown', [()] + [s for r in (1, 2, 3) for s in itertools.combinations(range(k), r)]),
             ('unk_form', ['None', 'nan']),
+            ('unk_scope', ['all-channels', 'first-channel-only', 'staggered']),
+            ('decades', [5, 4]),
             ('saturated', [None, 'brightest', 'dimmest']),
-            ('nch', [1, 2, 3]),
+            ('nch', [2, 1, 3]),
             ('cluster', ['mef', 'one', 'all-fl', 'with-scatter']),
             ('statistic', ['median', 'mean']),
             ('order', ['shuffled', 'sorted', 'reversed', 'interleaved']),
@@ -213,7 +215,7 @@ def layer_a_cases(tier):
     for c in explore.deviations(dims, bound):
         if tier == 'thorough' and c['_dev'] == 3 and c['perm'] != 0 and c['perm'] % 7:
             continue      # thorough, 3 deviations: every 7th permutation (stated in the evidence); bound 2 is complete
-        key = (c['saturated'], c['nch'], c['order'], c['blank'])
+        key = (c['saturated'], c['nch'], c['order'], c['blank'], c['decades'])
         group.setdefault(key, []).append(c)
     for key, lst in group.items():
         for i in range(0, len(lst), 120):
@@ -224,7 +226,7 @@ def run_a(c, res):
     k = c['k']
     perms = list(itertools.permutations(range(k)))
     first = c['items'][0]
-    spec = dict(DEFAULT, n_pop=k, n_events=60, saturated=first['saturated'], laws=LAWS3, order=first['order'],
+    spec = dict(DEFAULT, n_pop=k, n_events=60, saturated=first['saturated'], laws=LAWS3, order=first['order'], decades=first.get('decades', 5),
                 blank=first['blank'])
     spec = with_auto(spec)
     d, truth = load(spec, 'a')
@@ -238,8 +240,12 @@ def run_a(c, res):
         mef_given = []
         for ci in range(len(mef_channels)):
             row = [float(v) for v in truth['mef'][ci]]
-            for u in it['unknown']:
-                row[u] = None if it['unk_form'] == 'None' else float('nan')
+            scope = it.get('unk_scope', 'all-channels')
+            for ui, u in enumerate(it['unknown']):
+                if scope == 'first-channel-only' and ci != 0:
+                    continue
+                uu = (u + ci) % k if scope == 'staggered' else u     # another position in every channel
+                row[uu] = None if it['unk_form'] == 'None' else float('nan')
             mef_given.append(row)
         cl = {'mef': None, 'one': [mef_channels[0]], 'all-fl': list(truth['fl_names']), 'with-scatter': ['FSC-H', 'SSC-H'] + mef_channels}[it['cluster']]
         one = dict(kind='A', k=k, items=[it])
@@ -262,7 +268,7 @@ def run_a(c, res):
         if s is None:
             continue
         # identical outcome for every label permutation / clustering-channel choice (same sample, same unknowns, same statistic)
-        key = (it['unknown'], it['statistic'])
+        key = (it['unknown'], it['statistic'], it.get('unk_scope'), it['nch'])
         canon = [(ch, kept, rfi, mef) for ch, kept, rfi, mef, params in s]
         if key in base and base[key][0] != canon:
             res.violation('A:permutation-dependent', '%s: outcome differs from the one for %s' % (what, base[key][1]), one)
@@ -280,13 +286,14 @@ def layer_b_cases(tier, seed):
             ('m', [1.0, 0.9, 1.2]), ('b', [3.0, 1.0, 5.0]), ('auto', ['none', 'some']), ('nch', [1, 2, 3]), ('blank', [False, True]),
             ('saturated', [None, 'brightest', 'dimmest']), ('unknown', [None, 'first', 'middle', 'last']),
             ('cluster', ['mef', 'one', 'all-fl', 'with-scatter']), ('container', ['int', 'float']), ('statistic', ['median', 'mean']),
-            ('sizes', ['equal', 'alternating', 'increasing', 'decreasing'])]
+            ('sizes', ['equal', 'alternating', 'increasing', 'decreasing']), ('decades', [5, 4])]
     bound = 1 if tier == 'quick' else 2
     K = 2 if tier == 'quick' else 4
     streams = [seed * K + i for i in range(K)]
     for cfg in explore.deviations(dims, bound):
-        if cfg['n_pop'] == 8 and cfg['ratio'] == 4.0:
-            continue          # 3 * 4**7 exceeds the five decades of the detector
+        top = 3.0 * cfg['ratio'] ** (cfg['n_pop'] - 1 + (1 if cfg['blank'] else 0)) * (1.5 if cfg['saturated'] != 'brightest' else 0.3)
+        if top >= 10 ** cfg['decades']:
+            continue          # the ladder would not fit into the detector range
         for st in streams:
             yield dict(kind='B', cfg=cfg, stream=st)
 
@@ -303,7 +310,7 @@ def spec_of(cfg, stream):
              'increasing': [int(round(200 + 600.0 * j / (k - 1))) for j in range(k)],
              'decreasing': [int(round(800 - 600.0 * j / (k - 1))) for j in range(k)]}[cfg.get('sizes', 'equal')]
     spec = dict(DEFAULT, n_pop=cfg['n_pop'], ratio=cfg['ratio'], cv=cfg['cv'], n_events=sizes, laws=laws,
-                blank=cfg['blank'], saturated=cfg['saturated'], container=cfg['container'], stream=stream)
+                blank=cfg['blank'], saturated=cfg['saturated'], container=cfg['container'], stream=stream, decades=cfg.get('decades', 5))
     if cfg['auto'] == 'some' or cfg['blank']:
         laws2 = []
         for (m, b, a) in laws:
